@@ -18,6 +18,11 @@ var storedBodyFields = []string{
 	"s3bolt.boltObject.Contents", "s3bolt.boltObject.Hash",
 }
 
+// storedMetaFields hold metadata maps that are shared, not copied.
+var storedMetaFields = []string{
+	"s3mem.bucketData.metadata", "gofakes3.multipartUpload.Meta", "gofakes3.Object.Metadata", "s3bolt.boltObject.Metadata", "s3afero.Metadata.Meta",
+}
+
 // calls that write into their byte-slice argument (index of the written arg)
 var sliceWriters = map[string]int{
 	"io.ReadFull": 1, "io.ReadAtLeast": 1, "invoke:io.Reader.Read": 1, "crypto/rand.Read": 0,
@@ -108,6 +113,62 @@ func rule016(r *core.Run, prop string) {
 	}
 	if n < 8 {
 		r.Unresolved("R01.6: only %d loads of stored-body fields found (expected ≥ 8)", n)
+	}
+	// stored metadata maps are shared with readers and with archived versions: never written
+	nm := 0
+	for _, field := range storedMetaFields {
+		for _, ld := range p.FieldLoads(field) {
+			nm++
+			fn := ld.(ssa.Instruction).Parent()
+			derived := map[ssa.Value]bool{ld: true}
+			work := []ssa.Value{ld}
+			bad := ""
+			var badAt ssa.Instruction
+			for len(work) > 0 && bad == "" {
+				v := work[len(work)-1]
+				work = work[:len(work)-1]
+				refs := v.Referrers()
+				if refs == nil {
+					continue
+				}
+				for _, u := range *refs {
+					switch x := u.(type) {
+					case *ssa.Phi:
+						if !derived[x] {
+							derived[x] = true
+							work = append(work, x)
+						}
+					case *ssa.Store:
+						// assigned to a local variable: follow its loads
+						if a, ok := x.Addr.(*ssa.Alloc); ok && x.Val == v {
+							for _, ar := range *a.Referrers() {
+								if l2, ok := ar.(*ssa.UnOp); ok && !derived[l2] {
+									derived[l2] = true
+									work = append(work, l2)
+								}
+							}
+						}
+					case *ssa.MapUpdate:
+						if x.Map == v {
+							bad, badAt = "entry written", x
+						}
+					case ssa.CallInstruction:
+						if b, ok := x.Common().Value.(*ssa.Builtin); ok && b.Name() == "delete" && x.Common().Args[0] == v {
+							bad, badAt = "entry deleted", x
+						}
+					}
+				}
+			}
+			k := key(fname(r, fn), "load "+field, sprintfIdx(ld))
+			if bad == "" {
+				r.Held("R01.6", k, pos(r, ld.(ssa.Instruction)), "read-only uses")
+			} else {
+				r.Violated("R01.6", k, pos(r, badAt), "the metadata map loaded from "+field+" is modified ("+bad+"): it is shared with archived versions and with objects already handed to readers, whose metadata changes under them")
+			}
+		}
+	}
+	if nm < 4 {
+		r.Unresolved("R01.6: only %d loads of stored-metadata fields found (expected ≥ 4)", nm)
 	}
 	_ = strings.TrimSpace
 }
